@@ -62,7 +62,7 @@ THEOREMS = [
     "Poupool.C14.C14_fact_ph_pterm",
     "Poupool.C14.C14_fact_orp_pterm",
     "Poupool.C14.C14_fact_numeric_upper_bounds",
-    "Poupool.C14.C14_fact_methods", "Poupool.C14.C14_fact_routing",
+    "Poupool.C14.C14_fact_routing",
     "Poupool.C14.C14_fact_modes",
     "Poupool.C14.C14_fact_unvalidated_topics",
     "Poupool.C14.C14_setter_guards_checked",
